@@ -272,6 +272,24 @@ fn mutation_cases(env: &Env, chain: &Chain) -> Vec<(String, Vec<TransactionView>
     case("valid/grandchild-of-pending-transactions", vec![parent.clone(), child.clone()], grandchild.clone(), true);
     case("child-spends-more-than-the-pending-output", vec![parent.clone()], build_tx(&[dep.clone()], &[packed::OutPoint::new(parent.hash(), 0)], &[OutSpec::lock(&s.b, cap0)], 19), false);
     case("child-of-a-pending-transaction/output-index-out-of-range", vec![parent.clone()], build_tx(&[dep.clone()], &[packed::OutPoint::new(parent.hash(), 1)], &[OutSpec::lock(&s.b, 100_0000_0000)], 20), false);
+    // a relative `since` on the output of a PENDING parent: the parent is in no block, so there is
+    // nothing the lock could be measured from - immature whatever the value (a full node rejects it
+    // the same way); an absolute mature one is fine
+    for (label, since, ok) in [
+        ("immature-since/relative-block/0-on-a-pending-output", 0x8000_0000_0000_0000u64, false),
+        ("immature-since/relative-block/1-on-a-pending-output", 0x8000_0000_0000_0001u64, false),
+        ("immature-since/relative-epoch/0-on-a-pending-output", 0xa000_0000_0000_0000u64, false),
+        ("immature-since/relative-timestamp/1-on-a-pending-output", 0xc000_0000_0000_0001u64, false),
+        ("valid/mature-since/absolute-block/1-on-a-pending-output", 1u64, true),
+    ] {
+        let tx = ckb_types::core::TransactionBuilder::default()
+            .cell_dep(dep.clone())
+            .input(packed::CellInput::new(packed::OutPoint::new(parent.hash(), 0), since))
+            .output(packed::CellOutput::new_builder().capacity((cap0 - 2000).pack()).lock(s.b.clone()).build())
+            .output_data(Default::default())
+            .build();
+        case(label, vec![parent.clone()], tx, ok);
+    }
     // the parent was evicted from the pool (limit 3) before the child arrives
     let fillers: Vec<TransactionView> = (2..2 + LIMIT).map(|i| valid(env, chain, i)).collect();
     let mut pre = vec![parent.clone()];
